@@ -116,6 +116,8 @@ def check_polynomial_detrend(ctx, rule="R1-least-squares-polynomial-removed"):
                 a_ = tb.subst({tv: X.const(1)}) - tb.subst({tv: X.const(0)})
                 ok_t = (tb.subst({tv: X.const(0)}) + a_ * X.var(tv)).eq(tb) and tv not in a_.fv() and not a_.iszero()
         ok_y = isinstance(f.info.get("y"), ArrParam) and f.info["y"].name == "x"
+        if any(is_opaque(f.info.get(k_)) for k_ in ("t", "y", "t_eval")):
+            ctx.unknown(rule, c, f"fit arguments not recognised: t={f.info.get('t')!r}, y={f.info.get('y')!r}"[:200], where); continue
         dgv = f.info.get("deg")
         while isinstance(dgv, PV): dgv = dgv.lo      # generic case: the signal is longer than order+1
         dg = to_x(dgv)
@@ -160,6 +162,26 @@ class DF(Obj):
             name, (args, kw) = key, v
             if name == "copy":
                 d = DF(s.name + ".copy", s.log); d.parent = s; return d
+            if name == "drop":
+                # df.drop(columns=[...]) returns a new frame without those columns: same rows, same index
+                cols_ = kw.get("columns")
+                from .absint import _concrete_seq
+                seq_ = _concrete_seq(cols_) if cols_ is not None else None
+                if seq_ is not None and all(isinstance(c_, str) for c_ in seq_):
+                    s.dropped = list(getattr(s, "dropped", [])) + list(seq_)
+                    return s
+                return Opaque("DataFrame.drop")
+            if name in ("join", "merge", "assign") and name == "join" and args and isinstance(args[0], Marker) and args[0].kind == "newframe":
+                nf_ = args[0]
+                ix = nf_.info.get("index")
+                same = isinstance(ix, Marker) and ix.kind == "index" and ix.info.get("of") in (s.name, "df")
+                if not same:
+                    return Mismatch("DataFrame.join aligns on index labels: the frame built from raw arrays has a default RangeIndex, so for a frame whose index is not "
+                                    "0..n-1 (time-indexed, truncated, concatenated) the new columns land on the wrong rows / turn into NaN")
+                d_ = nf_.info.get("data")
+                if isinstance(d_, DictVal):
+                    for k_, v_ in d_.d.items(): s.sets.append((k_, v_)); s.log.append((s.name, k_, v_))
+                return s
             return Opaque(f"DataFrame.{name}")
         return NotImplemented
 
